@@ -845,6 +845,11 @@ func (m *endpointManager) resolveWorkloadEndpoints() {
 				m.activeWlEndpoints[id] = workload
 				m.activeWlIfaceNameToID[workload.Name] = id
 				delete(m.pendingWlEpUpdates, id)
+				// The endpoint may have been shadowed until now (and got here through an
+				// update of its own, for example one that changed its interface name,
+				// rather than through promotion).  An active endpoint must not keep a
+				// shadow copy, or that stale copy gets "promoted" later on.
+				delete(m.shadowedWlEndpoints, id)
 
 				if m.isQoSBandwidthSupported() {
 					logCxt.Info("Updating QoS bandwidth state if changed")
